@@ -322,7 +322,17 @@ def run_shape(case, out):
         if kind in ("sphere", "cylinder", "ellipsoid") and outwards and core is not None and core.any():
             out.label("soft_outwards_core")
             lo = mf[core].min()
-            out.check(lo >= 1 - 1e-3, f"{kind}:soft_outwards_core_below_1", lambda: f"min over requested core {lo} sigma={s} shape={shape} centre={c}")
+            sig_core = f"{kind}:soft_outwards_core_below_1"
+            if kind == "ellipsoid" and lo < 1 - 1e-3:
+                # recorded finding (known_findings.json): the tips of needle-like ellipsoids fall short by up to ~3e-3 because the
+                # radii are enlarged by 5 sigma along the axes only; any other shape, or a larger shortfall, keeps the general signature
+                rr = sorted(case["radii"] if case["radii"] is not None else [n_ // 2 for n_ in shape])
+                worst = np.argwhere(core & (mf == lo))[0]
+                k_long = int(np.argmax(case["radii"] if case["radii"] is not None else [n_ // 2 for n_ in shape]))
+                at_tip = abs(int(worst[k_long]) - c[k_long]) >= rr[2] - 1
+                if rr[0] <= 2 and rr[2] >= 5 * rr[0] and lo >= 1 - 5e-3 and at_tip:
+                    sig_core = "ellipsoid:soft_outwards_core_below_1:needle_tip_short_by_less_than_5e-3"
+            out.check(lo >= 1 - 1e-3, sig_core, lambda: f"min over requested core {lo} sigma={s} shape={shape} centre={c}")
 
 
 def run_name(case, out):
